@@ -101,7 +101,7 @@ TEXT.update({
     "C13": {
         "engine": "rapid-wire",
         "technique": "property-based testing of the wire paths (BESS unixpacket notify socket / UP4 P4Runtime digests -> Session Report Request) and of the rate limiter with bracketed timestamps",
-        "level_text": "Wire: fresh agent on BESS (enable_notify_bess, harness unixpacket listener, 8-byte F-SEID reports) or, every third case, on UP4 (digests carrying UE addresses injected on the harness switch's stream); sessions of kinds BUFF|NOCP, BUFF, FORW, DROP, no downlink PDR; generated bursts of reports over known, unknown and zero F-SEIDs / UE addresses; exactly one Session Report Request (DLDR, downlink PDR of the session, CP SEID in the header, fresh sequence number) per notifying session, none otherwise. Unit: the notifier with a 60 ms interval and generated call times: first report forwarded, two forwarded notifications at least an interval apart, a report at least an interval after the last forwarded one is forwarded.",
+        "level_text": "Wire: fresh agent on BESS (enable_notify_bess, harness unixpacket listener, 8-byte F-SEID reports) or, every third case, on UP4 (digests carrying UE addresses injected on the harness switch's stream); sessions of kinds BUFF|NOCP, BUFF, FORW, DROP, no downlink PDR; generated bursts of reports over known, unknown and zero F-SEIDs / UE addresses; exactly one Session Report Request (DLDR, downlink PDR of the session, CP SEID in the header, fresh sequence number) per notifying session, none otherwise. Flood unit: 3000-6000 notifying sessions and one burst of first reports (more than the agent's report queue holds): every session notified exactly once. Unit: the notifier with a 60 ms interval and generated call times: first report forwarded, two forwarded notifications at least an interval apart, a report at least an interval after the last forwarded one is forwarded.",
         "level_note": "One association (the statement says so). The hard-coded 20 s interval is not crossed on the wire.",
     },
     "C14": {
